@@ -92,6 +92,17 @@ Proof.
 Qed.
 Print Assumptions C08_maurer_proto_complete_and_simulatable.
 
+(* the exponent instance used for prime-order groups (group = Z_q with canonical
+   representatives, phi(w) = g*w, anchor u = 0, l = q) meets every hypothesis of the sigma
+   theorems, for every modulus q > 0 and every g *)
+Theorem C08_exponent_instance : forall (q g : Z), (0 < q)%Z ->
+  ab_action (zadd q) (zneg q) (zzero q) (zsmul q) /\
+  is_hom (zadd q) (zsmul q) (zadd q) (zsmul q) (zphi q g) /\
+  decides_eq (zeqb q) /\
+  forall x, zphi q g (zzero q) = zsmul q q x.
+Proof. exact zq_instance. Qed.
+Print Assumptions C08_exponent_instance.
+
 (* ---------------- AND / OR composition ---------------- *)
 
 (* sigand (cartesian): complete when both branches are; accepts exactly when both branches
